@@ -103,6 +103,8 @@ func cmdRerun(args []string) {
 				rec.Seq(it.Op, 0, 0, 0)
 			case "TopK", "BottomK":
 				rec.Seq(it.Op, 0, 0, it.N)
+			case "RangeC":
+				rec.rangeC(it.A, it.B)
 			case "Range":
 				rec.Seq("Range", it.A, it.B, 0)
 			case "Prefix":
